@@ -39,12 +39,21 @@ Proof.
   - exists it. split; [apply add_missing_keeps; apply in_or_app; right; left; reflexivity|reflexivity].
 Qed.
 
+Lemma nodup_snoc {A} (l : list A) x : NoDup l -> ~ In x l -> NoDup (l ++ [x]).
+Proof.
+  induction l as [|y l IH]; intros Hn Hx; cbn.
+  - constructor; [intros []|constructor].
+  - inversion Hn as [|? ? Hy Hn']; subst. constructor.
+    + intros Hin. apply in_app_or in Hin as [Hin|[<-|[]]]; [contradiction|]. apply Hx. left. reflexivity.
+    + apply IH; [exact Hn'|]. intros H. apply Hx. right. exact H.
+Qed.
+
 Lemma add_missing_nodup l : forall acc,
   NoDup (map fst acc) -> NoDup (map fst (add_missing acc l)).
 Proof.
   induction l as [|x l IH]; intros acc H; cbn [add_missing]; [exact H|].
   apply IH. destruct (has_src (fst x) acc) eqn:Eh; [exact H|].
-  rewrite map_app. cbn [map]. apply NoDup_app_one; [exact H|].
+  rewrite map_app. cbn [map]. apply nodup_snoc; [exact H|].
   intros Hin. apply in_map_iff in Hin as [y [H1 H2]].
   assert (has_src (fst x) acc = true) by (apply has_src_spec; eauto). congruence.
 Qed.
@@ -355,6 +364,87 @@ Section Facts.
       + cbn [andb negb Batch.run_batch]. unfold process_item. rewrite Ho. reflexivity.
   Qed.
 End Facts.
+
+(** * The item lists produced by [collect] are well formed *)
+
+Lemma nodup_map_inj {A B} (g : A -> B) (l : list A) :
+  (forall x y, In x l -> In y l -> g x = g y -> x = y) -> NoDup l -> NoDup (map g l).
+Proof.
+  induction l as [|x l IH]; intros Hinj Hn; cbn; [constructor|].
+  inversion Hn as [|? ? Hx Hn']; subst. constructor.
+  - intros Hin. apply in_map_iff in Hin as [y [H1 H2]].
+    assert (y = x) by (apply Hinj; [right; exact H2|left; reflexivity|exact H1]). subst. contradiction.
+  - apply IH; [|exact Hn']. intros a b Ha Hb. apply Hinj; right; assumption.
+Qed.
+
+Lemma nodup_fst_items (items : list bitem) a b :
+  NoDup (map fst items) -> In a items -> In b items -> fst a = fst b -> a = b \/ snd a <> snd b \/ True.
+Proof. auto. Qed.
+
+Lemma in_items_fst_unique (items : list bitem) :
+  NoDup (map fst items) -> forall a b, In a items -> In b items -> fst a = fst b -> a = b.
+Proof.
+  induction items as [|x l IH]; intros Hn a b Ha Hb Hab; [destruct Ha|].
+  cbn [map] in Hn. inversion Hn as [|? ? Hx Hn']; subst.
+  destruct Ha as [->|Ha], Hb as [->|Hb].
+  - reflexivity.
+  - exfalso. apply Hx. rewrite Hab. apply in_map. exact Hb.
+  - exfalso. apply Hx. rewrite <- Hab. apply in_map. exact Ha.
+  - apply IH; assumption.
+Qed.
+
+(** directory to a separate output location (the output is not a prefix of a source) *)
+Theorem collect_dir_wf f input out items :
+  fs_is_file f input = false ->
+  collect f input (Some out) = Some items ->
+  (forall s, In s (fs_collect f input) -> starts_with out s = false) ->
+  wf_items items.
+Proof.
+  intros Hf Hc Hsep. destruct (collect_dir_mirror f input out items Hf Hc) as [Hspec Hnd].
+  assert (Hshape : forall it, In it items ->
+                              In (fst it) (fs_collect f input) /\ snd it = rebase input out (fst it)).
+  { intros [s o] Hin. apply Hspec in Hin as [H1 H2]. cbn. split; [apply fs_collect_spec; exact H1|exact H2]. }
+  split.
+  - assert (Heq : map snd items = map (fun it => rebase input out (fst it)) items).
+    { apply map_ext_in. intros it Hin. apply (Hshape it Hin). }
+    rewrite Heq. apply nodup_map_inj.
+    + intros a b Ha Hb Hab. apply in_items_fst_unique with (items := items); try assumption.
+      destruct (Hshape a Ha) as [Hsa _]. destruct (Hshape b Hb) as [Hsb _].
+      apply fs_collect_spec in Hsa as [_ [Hsa _]]. apply fs_collect_spec in Hsb as [_ [Hsb _]].
+      eapply rebase_inj; eassumption.
+    + clear -Hnd. induction items as [|x l IH]; [constructor|]. cbn [map] in Hnd.
+      inversion Hnd as [|? ? Hx Hn']; subst. constructor; [|apply IH; exact Hn'].
+      intros Hin. apply Hx. apply in_map. exact Hin.
+  - intros a b Ha Hb Hab. exfalso. destruct (Hshape a Ha) as [Hsa _]. destruct (Hshape b Hb) as [_ Hob].
+    pose proof (Hsep _ Hsa) as Hno. rewrite <- Hab, Hob, rebase_starts in Hno. discriminate.
+Qed.
+
+Theorem collect_in_place_wf f input items :
+  collect f input None = Some items -> wf_items items.
+Proof.
+  intros Hc. destruct (collect_in_place f input items Hc) as [Hspec Hnd].
+  assert (Hshape : forall it, In it items -> snd it = fst it).
+  { intros [s o] Hin. apply Hspec in Hin as [_ H2]. exact H2. }
+  assert (Heq : map snd items = map fst items) by (apply map_ext_in; exact Hshape).
+  split; [rewrite Heq; exact Hnd|].
+  intros a b Ha Hb Hab. apply in_items_fst_unique with (items := items); try assumption.
+  rewrite <- Hab. apply Hshape. exact Hb.
+Qed.
+
+(** processing a directory into a separate location never modifies a file outside it *)
+Theorem inputs_untouched cfg xform (c : cfg) f input out items p :
+  fs_is_file f input = false ->
+  collect f input (Some out) = Some items ->
+  (forall s, In s (fs_collect f input) -> starts_with out s = false) ->
+  reads_no_output cfg xform c items ->
+  starts_with out p = false ->
+  fs_get (fst (run_batch cfg xform false c items f)) p = fs_get f p.
+Proof.
+  intros Hf Hc Hsep Hr Hp. apply batch_untouched; [eapply collect_dir_wf; eassumption|exact Hr|].
+  intros [s o] Hin Heq. cbn in Heq. subst o.
+  destruct (collect_dir_mirror f input out items Hf Hc) as [Hspec _].
+  apply Hspec in Hin as [_ ->]. rewrite rebase_starts in Hp. discriminate.
+Qed.
 
 (** * A concrete instance: the hypotheses are satisfiable, and needed *)
 
